@@ -701,7 +701,12 @@ impl<'r> Lowerer<'r> {
             .map(|a| {
                 let ty = self.type_info.type_of(a);
                 let ty = self.type_info.convert(&ty);
-                (self.expr(a), ty)
+                // Store each argument before evaluating the next one, so
+                // that a later argument cannot change the value of an
+                // earlier one.
+                let val = self.expr(a);
+                let var = self.assign_to_var(val, ty);
+                (Value::Move(var), ty)
             })
             .collect();
         self.make_enum(ty, variant, &arguments)
